@@ -96,16 +96,21 @@ def execute(case: Dict[str, Any], M: Optional[Model] = None, built: Any = None, 
     import tawazi
 
     old_dbg = tawazi.cfg.RUN_DEBUG_NODES
+    old_prof = tawazi.cfg.TAWAZI_PROFILE_ALL_NODES
     tawazi.cfg.RUN_DEBUG_NODES = bool(case.get("debug"))
+    tawazi.cfg.TAWAZI_PROFILE_ALL_NODES = bool(case.get("profile"))
     try:
         try:
             via = case.get("via", "call")
             if built is not None:
                 b = built
             else:
-                b = prog.build(P, is_async=bool(case.get("async")), mc=M.mc, decorate_attrs=(via != "config"))
+                b = prog.build(P, is_async=bool(case.get("async")), mc=case.get("build_mc", M.mc), decorate_attrs=(via != "config"))
             if via == "config" and built is None:
                 conf = prog.config_dict(P)
+                if "build_mc" in case:
+                    # the limit in force is the reconfigured one, not the one given at construction
+                    conf["max_concurrency"] = M.mc
                 b.dag.config_from_dict(conf)
             if built is None and (case.get("reconf") or case.get("reconf_seq")):
                 nodes: Dict[str, Any] = {}
@@ -143,4 +148,5 @@ def execute(case: Dict[str, Any], M: Optional[Model] = None, built: Any = None, 
             out.exc = e
     finally:
         tawazi.cfg.RUN_DEBUG_NODES = old_dbg
+        tawazi.cfg.TAWAZI_PROFILE_ALL_NODES = old_prof
     return out
